@@ -3,6 +3,9 @@ import AlgoVerif.Lemmas.AppStorage
 checkCounts / SetAppGlobalSchema). -/
 namespace AlgoVerif.Model.AppStorage
 
+-- `M64` is a 20-digit literal: keep definitional unfolding away from `x + M64` (unary recursion on the literal)
+attribute [local irreducible] M64
+
 theorem inc64_eq {n : Nat} (h : n + 1 < M64) : inc64 n = n + 1 := by
   unfold inc64; unfold M64 at *; omega
 
@@ -41,77 +44,180 @@ theorem countU_eq (kv : List (Bytes × TVal)) : countU kv = wsum wU kv := rfl
 theorem countB_eq (kv : List (Bytes × TVal)) : countB kv = wsum wB kv := rfl
 
 /-- the weight of the old value of a key (0 when absent) -/
-def oldU (o : Option TVal) : Nat := match o with | some (.uint _) => 1 | _ => 0
-def oldB (o : Option TVal) : Nat := match o with | some (.bytes _) => 1 | _ => 0
+def oldU (o : Option TVal) : Nat := if optIsU o then 1 else 0
+def oldB (o : Option TVal) : Nat := if optIsB o then 1 else 0
 
-theorem oldU_eq (kv : List (Bytes × TVal)) (k : Bytes) :
-    (match aget kv k with | some v0 => wU k v0 | none => 0) = oldU (aget kv k) := by
+theorem oldU_eq (kv : List (Bytes × TVal)) (k : Bytes) : wold wU kv k = oldU (aget kv k) := by
+  unfold wold
   cases aget kv k with
   | none => rfl
   | some v0 => cases v0 <;> rfl
 
-theorem oldB_eq (kv : List (Bytes × TVal)) (k : Bytes) :
-    (match aget kv k with | some v0 => wB k v0 | none => 0) = oldB (aget kv k) := by
+theorem oldB_eq (kv : List (Bytes × TVal)) (k : Bytes) : wold wB kv k = oldB (aget kv k) := by
+  unfold wold
   cases aget kv k with
   | none => rfl
   | some v0 => cases v0 <;> rfl
 
-/-- `updateCounts` is exact bookkeeping when the old counters are exact, in range and the new ones fit -/
+theorem updateCounts_nui_eq (c : Schema) (o n : Option TVal) :
+    (updateCounts c o n).nui = if optIsU n then inc64 (if optIsU o then dec64 c.nui else c.nui) else (if optIsU o then dec64 c.nui else c.nui) := rfl
+
+theorem updateCounts_nbs_eq (c : Schema) (o n : Option TVal) :
+    (updateCounts c o n).nbs = if optIsB n then inc64 (if optIsB o then dec64 c.nbs else c.nbs) else (if optIsB o then dec64 c.nbs else c.nbs) := rfl
+
+/-- `updateCounts` is exact bookkeeping when the old counter covers the old value and the result fits in 64 bits -/
 theorem updateCounts_nui (c : Schema) (o n : Option TVal) (hpos : oldU o ≤ c.nui) (hlt : c.nui + 1 < M64) :
     (updateCounts c o n).nui + oldU o = c.nui + oldU n := by
+  rw [updateCounts_nui_eq]
+  unfold oldU at *
   have hM : c.nui < M64 := by omega
-  cases o with
-  | none =>
-    cases n with
-    | none => simp [updateCounts, oldU]
-    | some v => cases v <;> simp [updateCounts, oldU, inc64_eq hlt]
-  | some v0 =>
-    cases v0 with
-    | bytes b0 =>
-      cases n with
-      | none => simp [updateCounts, oldU]
-      | some v => cases v <;> simp [updateCounts, oldU, inc64_eq hlt]
-    | uint u0 =>
-      have h1 : 0 < c.nui := by simpa [oldU] using hpos
-      have hd := dec64_eq h1 hM
-      have hi : inc64 (c.nui - 1) = c.nui - 1 + 1 := inc64_eq (by omega)
-      cases n with
-      | none => simp only [updateCounts, oldU, hd]; omega
-      | some v => cases v <;> simp only [updateCounts, oldU, hd, hi] <;> omega
+  have hi0 := inc64_eq hlt
+  cases ho : optIsU o <;> cases hn : optIsU n
+  · simp only [Bool.false_eq_true, if_false]
+  · simp only [Bool.false_eq_true, if_false, if_true]; rw [hi0]
+  · rw [ho] at hpos
+    simp only [if_true] at hpos
+    have hd := dec64_eq hpos hM
+    simp only [Bool.false_eq_true, if_false, if_true]
+    rw [hd]; omega
+  · rw [ho] at hpos
+    simp only [if_true] at hpos
+    have hd := dec64_eq hpos hM
+    have hi : inc64 (c.nui - 1) = c.nui - 1 + 1 := inc64_eq (by omega)
+    simp only [if_true]
+    rw [hd, hi]; omega
 
 theorem updateCounts_nbs (c : Schema) (o n : Option TVal) (hpos : oldB o ≤ c.nbs) (hlt : c.nbs + 1 < M64) :
     (updateCounts c o n).nbs + oldB o = c.nbs + oldB n := by
+  rw [updateCounts_nbs_eq]
+  unfold oldB at *
   have hM : c.nbs < M64 := by omega
-  cases o with
-  | none =>
-    cases n with
-    | none => simp [updateCounts, oldB]
-    | some v => cases v <;> simp [updateCounts, oldB, inc64_eq hlt]
-  | some v0 =>
-    cases v0 with
-    | uint u0 =>
-      cases n with
-      | none => simp [updateCounts, oldB]
-      | some v => cases v <;> simp [updateCounts, oldB, inc64_eq hlt]
-    | bytes b0 =>
-      have h1 : 0 < c.nbs := by simpa [oldB] using hpos
-      have hd := dec64_eq h1 hM
-      have hi : inc64 (c.nbs - 1) = c.nbs - 1 + 1 := inc64_eq (by omega)
-      cases n with
-      | none => simp only [updateCounts, oldB, hd]; omega
-      | some v => cases v <;> simp only [updateCounts, oldB, hd, hi] <;> omega
+  have hi0 := inc64_eq hlt
+  cases ho : optIsB o <;> cases hn : optIsB n
+  · simp only [Bool.false_eq_true, if_false]
+  · simp only [Bool.false_eq_true, if_false, if_true]; rw [hi0]
+  · rw [ho] at hpos
+    simp only [if_true] at hpos
+    have hd := dec64_eq hpos hM
+    simp only [Bool.false_eq_true, if_false, if_true]
+    rw [hd]; omega
+  · rw [ho] at hpos
+    simp only [if_true] at hpos
+    have hd := dec64_eq hpos hM
+    have hi : inc64 (c.nbs - 1) = c.nbs - 1 + 1 := inc64_eq (by omega)
+    simp only [if_true]
+    rw [hd, hi]; omega
 
 /-- what `setKey` does when it succeeds -/
 theorem setKey_eq {P : Proto} {s s' : Store} {k : Bytes} {v : TVal} (h : setKey P s k v = .ok s') :
     s' = { s with kv := aset s.kv k v, counts := updateCounts s.counts (aget s.kv k) (some v) } ∧
     checkCounts (updateCounts s.counts (aget s.kv k) (some v)) s.max = .ok () := by
   unfold setKey at h
-  simp only [bind_eq_ok] at h
-  obtain ⟨_, _, h⟩ := h
-  obtain ⟨_, _, h⟩ := h
-  obtain ⟨u, hc, h⟩ := h
-  cases u
-  simp only [pure, Except.pure, Except.ok.injEq] at h
-  exact ⟨h.symm, hc⟩
+  split at h
+  · cases h
+  · split at h
+    · cases h
+    · dsimp only at h
+      split at h
+      · cases h
+      · rename_i u hc
+        cases u
+        cases h
+        exact ⟨rfl, hc⟩
+
+theorem wsumU_old_le {kv : List (Bytes × TVal)} (k : Bytes) (h : keysNodup kv) : oldU (aget kv k) ≤ countU kv := by
+  have := wsum_adel wU k h
+  rw [oldU_eq] at this
+  rw [countU_eq]; omega
+
+theorem wsumB_old_le {kv : List (Bytes × TVal)} (k : Bytes) (h : keysNodup kv) : oldB (aget kv k) ≤ countB kv := by
+  have := wsum_adel wB k h
+  rw [oldB_eq] at this
+  rw [countB_eq]; omega
+
+/-- `setKey` keeps a storage consistent: the counts are updated with the write, a type change moves the counter, nothing
+    wraps, and the new counts are within the schema (otherwise the write is rejected) -/
+theorem setKey_ok {P : Proto} {s s' : Store} {k : Bytes} {v : TVal} (hs : StoreOK s) (h : setKey P s k v = .ok s') : StoreOK s' := by
+  obtain ⟨he, hc⟩ := setKey_eq h
+  have hcc := checkCounts_ok hc
+  have hu := wsum_aset wU k v hs.nodup
+  have hb := wsum_aset wB k v hs.nodup
+  rw [oldU_eq] at hu
+  rw [oldB_eq] at hb
+  have h1 := hs.cu; have h2 := hs.cb; have h3 := hs.le_u; have h4 := hs.le_b; have h5 := hs.small_u; have h6 := hs.small_b
+  have pu := wsumU_old_le k hs.nodup
+  have pb := wsumB_old_le k hs.nodup
+  have eu := updateCounts_nui s.counts (aget s.kv k) (some v) (by omega) (by omega)
+  have eb := updateCounts_nbs s.counts (aget s.kv k) (some v) (by omega) (by omega)
+  subst he
+  refine ⟨keysNodup_aset k v hs.nodup, ?_, ?_, hcc.1, hcc.2, hs.small_u, hs.small_b⟩
+  · show (updateCounts s.counts (aget s.kv k) (some v)).nui = countU (aset s.kv k v)
+    rw [countU_eq] at *
+    have : wU k v = oldU (some v) := by cases v <;> rfl
+    omega
+  · show (updateCounts s.counts (aget s.kv k) (some v)).nbs = countB (aset s.kv k v)
+    rw [countB_eq] at *
+    have : wB k v = oldB (some v) := by cases v <;> rfl
+    omega
+
+theorem delKey_ok {s : Store} (k : Bytes) (hs : StoreOK s) : StoreOK (delKey s k) := by
+  have hu := wsum_adel wU k hs.nodup
+  have hb := wsum_adel wB k hs.nodup
+  rw [oldU_eq] at hu
+  rw [oldB_eq] at hb
+  have h1 := hs.cu; have h2 := hs.cb; have h3 := hs.le_u; have h4 := hs.le_b; have h5 := hs.small_u; have h6 := hs.small_b
+  have pu := wsumU_old_le k hs.nodup
+  have pb := wsumB_old_le k hs.nodup
+  have eu := updateCounts_nui s.counts (aget s.kv k) none (by omega) (by omega)
+  have eb := updateCounts_nbs s.counts (aget s.kv k) none (by omega) (by omega)
+  have z1 : oldU none = 0 := rfl
+  have z2 : oldB none = 0 := rfl
+  rw [countU_eq] at *
+  rw [countB_eq] at *
+  refine ⟨keysNodup_adel k hs.nodup, ?_, ?_, ?_, ?_, hs.small_u, hs.small_b⟩
+  · show (updateCounts s.counts (aget s.kv k) none).nui = countU (adel s.kv k)
+    rw [countU_eq]; omega
+  · show (updateCounts s.counts (aget s.kv k) none).nbs = countB (adel s.kv k)
+    rw [countB_eq]; omega
+  · show (updateCounts s.counts (aget s.kv k) none).nui ≤ s.max.nui
+    omega
+  · show (updateCounts s.counts (aget s.kv k) none).nbs ≤ s.max.nbs
+    omega
+
+theorem setSchema_ok {s s' : Store} {lim : Schema} (hs : StoreOK s) (hl : lim.small) (h : setSchema s lim = .ok s') : StoreOK s' := by
+  unfold setSchema at h
+  split at h
+  · rename_i u hc
+    cases u
+    cases h
+    have := checkCounts_ok hc
+    exact ⟨hs.nodup, hs.cu, hs.cb, this.1, this.2, hl.1, hl.2⟩
+  · cases h
+
+/-- a write that would exceed the schema is rejected: a NEW key of a type whose count already equals the limit -/
+theorem setKey_rejects_past_schema {P : Proto} {s : Store} {k : Bytes} {v : TVal} (hs : StoreOK s)
+    (hnew : aget s.kv k = none)
+    (hfull : (v.isUint = true ∧ countU s.kv = s.max.nui) ∨ (v.isUint = false ∧ countB s.kv = s.max.nbs)) :
+    ∀ s', setKey P s k v ≠ .ok s' := by
+  intro s' h
+  obtain ⟨_, hc⟩ := setKey_eq h
+  have hcc := checkCounts_ok hc
+  have eu := updateCounts_nui s.counts none (some v) (Nat.zero_le _) (by have := hs.le_u; have := hs.small_u; omega)
+  have eb := updateCounts_nbs s.counts none (some v) (Nat.zero_le _) (by have := hs.le_b; have := hs.small_b; omega)
+  rw [hnew] at hcc
+  have h1 := hs.cu; have h2 := hs.cb
+  have z1 : oldU none = 0 := rfl
+  have z2 : oldB none = 0 := rfl
+  cases v with
+  | uint x =>
+    have : oldU (some (TVal.uint x)) = 1 := rfl
+    rcases hfull with ⟨_, hf⟩ | ⟨hf, _⟩
+    · omega
+    · cases hf
+  | bytes x =>
+    have : oldB (some (TVal.bytes x)) = 1 := rfl
+    rcases hfull with ⟨hf, _⟩ | ⟨_, hf⟩
+    · cases hf
+    · omega
 
 end AlgoVerif.Model.AppStorage
